@@ -51,6 +51,24 @@ def _is_var(prog, fi: FuncInfo, x: ast.AST, spec) -> bool:
     raise AnalysisError(f"bad variable spec {spec}")
 
 
+def _total_order(call: ast.Call) -> bool:
+    """sorted(...) fixes the order completely: no key=, or a key that is a function of
+    the (unique) dictionary key of an items() element only.  With any other key, ties
+    keep the incoming (set-derived) order."""
+    k = A.kwarg(call, "key")
+    if k is None:
+        return True
+    if isinstance(k, ast.Lambda) and len(k.args.args) == 1:
+        x = k.args.args[0].arg
+        uses = [n for n in ast.walk(k.body) if isinstance(n, ast.Name) and n.id == x]
+        ok = bool(uses)
+        for u in uses:
+            ok = ok and any(isinstance(p_, ast.Subscript) and p_.value is u and A.is_const(p_.slice, 0) for p_ in ast.walk(k.body))
+        src = call.args[0] if call.args else None
+        return ok and isinstance(src, ast.Call) and isinstance(src.func, ast.Attribute) and src.func.attr == "items"
+    return False
+
+
 def _iterates_sorted(prog, fi: FuncInfo, spec) -> bool:
     """Every `for` / comprehension in fi that iterates the variable identified by
     `spec` (itself, or its .items()/.keys()/.values(), or a set expression over it)
@@ -64,8 +82,8 @@ def _iterates_sorted(prog, fi: FuncInfo, spec) -> bool:
             iters.append(n.iter)
         for it in iters:
             core = it
-            is_sorted = isinstance(core, ast.Call) and isinstance(core.func, ast.Name) and core.func.id == "sorted"
-            if is_sorted and core.args:
+            is_sorted = isinstance(core, ast.Call) and isinstance(core.func, ast.Name) and core.func.id == "sorted" and _total_order(core)
+            if isinstance(core, ast.Call) and isinstance(core.func, ast.Name) and core.func.id == "sorted" and core.args:
                 core = core.args[0]
             if isinstance(core, ast.Call) and isinstance(core.func, ast.Attribute) and core.func.attr in ("items", "keys", "values") and not core.args:
                 core = core.func.value
@@ -760,6 +778,8 @@ def r087(prog, chk):
 
 
 MUTANTS = [
+    M("graph colouring visits vertices by degree, ties in set order (seeded C08b)", "ufo2ft/featureWriters/markFeatureWriter.py", "colorGraph",
+      "sorted(adjacency)", "sorted(adjacency, key=lambda n: len(adjacency[n]), reverse=True)", rule="R08.1"),
     M("spacing marks memoised on the writer (seeded C08a)", "ufo2ft/featureWriters/kernFeatureWriter.py", "KernFeatureWriter._filterSpacingMarks",
       "<decorate>", "functools.cached_property", rule="R08.7"),
     M("glyph scripts cached on the writer", "ufo2ft/featureWriters/kernFeatureWriter.py", "KernFeatureWriter._makeKerningLookups",
